@@ -42,6 +42,13 @@ SymmetricBinds == Ready =>
   \A pw2 \in ShortPw, a2 \in Short, X2 \in Fixed, Y2 \in Fixed, K2 \in Fixed :
     FinalizeSym(idA, X, Y, K, pw) = FinalizeSym(a2, X2, Y2, K2, pw2)
       => (pw2 = pw /\ a2 = idA /\ K2 = K /\ {X2, Y2} = {X, Y})
+(* order-freeness and "min first" for messages of ANY length (prefixes, empty) *)
+SymmetricAnyLength == Ready =>
+  \A m1 \in Short, m2 \in Short :
+    /\ FinalizeSym(idA, m1, m2, K, pw) = FinalizeSym(idA, m2, m1, K, pw)
+    /\ FinalizeSym(idA, m1, m2, K, pw) = Hash(Hash(pw) \o Hash(idA) \o (IF BytesLe(m1, m2) THEN m1 \o m2 ELSE m2 \o m1) \o K)
+    /\ (BytesLe(m1, m2) /\ BytesLe(m2, m1)) => m1 = m2                 \* the order is total and antisymmetric
+    /\ BytesLe(m1, m2) \/ BytesLe(m2, m1)
 (* the definition itself                                                      *)
 Layout == Ready =>
           /\ Finalize(idA, idB, X, Y, K, pw) = Hash(Hash(pw) \o Hash(idA) \o Hash(idB) \o X \o Y \o K)
